@@ -32,10 +32,42 @@ impl Report {
 pub fn close(a: f64, b: f64) -> bool { (a - b).abs() <= TOL * (1.0 + a.abs().max(b.abs())) }
 
 pub mod c01;
+pub mod c02;
+pub mod c03;
+pub mod c04;
+pub mod c05;
+pub mod c06;
+pub mod c07;
+pub mod c09;
+pub mod c11;
+pub mod c12;
+pub mod c13;
+pub mod c14;
+pub mod c15;
+pub mod c16;
+pub mod c17;
+pub mod c18;
+pub mod c19;
 
 pub fn run(prop: &str) -> Option<Report> {
     match prop {
         "C01" => Some(c01::run()),
+        "C02" => c02::run(),
+        "C03" => c03::run(),
+        "C04" => c04::run(),
+        "C05" => c05::run(),
+        "C06" => c06::run(),
+        "C07" => c07::run(),
+        "C09" => c09::run(),
+        "C11" => c11::run(),
+        "C12" => c12::run(),
+        "C13" => c13::run(),
+        "C14" => c14::run(),
+        "C15" => c15::run(),
+        "C16" => c16::run(),
+        "C17" => c17::run(),
+        "C18" => c18::run(),
+        "C19" => c19::run(),
         _ => None,
     }
 }
